@@ -138,6 +138,12 @@ def run(rep: vlib.Reporter, tier: str, seed: int) -> None:
     # THREADING (free running) only on plans without unordered conflicting steps (decided by conflict_free in Coq)
     cf_terms = [f"({cq_plan(r['plan'])}, {cq_foot(r['foot'])})" for r in recs]
     conflicted = set(vlib.run_cases("C13", "cf", REQ, "chk_cf", cf_terms, extra_defs=C01_EXTRA, case_type="plan * foot", shard=60)[0])
+    # planner defect domains decided in Coq on the exported plan (Model/PlanDefects.v); the Python predicates are only counted
+    from harness import planner_b
+    coq_cls = planner_b.classify([r["plan"] for r in recs], rep_prefix="C13")
+    n_py_only = sum(1 for r, c in zip(recs, coq_cls) if r["in_kf"] and not c)
+    for r, c in zip(recs, coq_cls):
+        r["in_kf"] = bool(c)
     for i, r in enumerate(recs):
         if i in conflicted or r["in_kf"]:
             continue
@@ -151,7 +157,7 @@ def run(rep: vlib.Reporter, tier: str, seed: int) -> None:
                                case_type="plan * (list nat * list nat * ostatus * list nat)", shard=60)
     found = False
     n_runs = 0
-    dist = {"specs": len(recs), "generator": gstats, "in_kf_domain": sum(r["in_kf"] for r in recs),
+    dist = {"specs": len(recs), "generator": gstats, "in_kf_domain": sum(r["in_kf"] for r in recs), "in_python_predicate_only": n_py_only,
             "plans_with_unordered_conflicts": len(conflicted), "stream_ok": 0, "both_raised": 0, "items_hist": {}}
     for i, r in enumerate(recs):
         for mname, m in r["modes"].items():
